@@ -30,7 +30,7 @@ def check_calls(ctx, clause="D-b"):
             if cs.kind == "missing":
                 reach = ctx.reachable(cs.func)
                 names = sorted(k.split(":")[1] for k in (cs.recv_types or []) if k.startswith("missing:"))
-                obs.append(Ob(clause, "R-SIG", "R-SIG|missing-method|%s|%s" % (cs.func.short, norm(cs.node.func)),
+                obs.append(Ob(clause, "R-SIG", "R-SIG|missing-method|%s|%s" % (cs.func.short, cs.func.key(cs.node.func)),
                               cs.func.loc(cs.node), False,
                               "method %s() does not exist on %s (receiver %s)" % (cs.node.func.attr, "/".join(names),
                                                                                 norm(cs.node.func.value)),
@@ -43,7 +43,7 @@ def check_calls(ctx, clause="D-b"):
             bad = all(b["errors"] for _, b in results)
         else:
             bad = any(b["errors"] for _, b in results)
-        key = "R-SIG|call|%s|%s" % (cs.func.short, norm(cs.node.func) + "(" + ",".join(
+        key = "R-SIG|call|%s|%s" % (cs.func.short, cs.func.key(cs.node.func) + "(" + ",".join(
             [("*" if isinstance(a, ast.Starred) else "_") for a in cs.node.args] +
             [str(k.arg) for k in cs.node.keywords]) + ")")
         if bad:
@@ -129,7 +129,7 @@ def check_typed_attr_reads(ctx, clause="D-b"):
                         present = True
                 if present:      # some candidate type has it: a type test may select it (flow-insensitive types)
                     missing = []
-                key = "R-SIG|attr|%s|%s" % (f.short, norm(n))
+                key = "R-SIG|attr|%s|%s" % (f.short, f.key(n))
                 if key in done:
                     continue
                 done.add(key)
